@@ -15,6 +15,9 @@ mod trrel_only010__ser;
 mod trrel_only001__ser;
 mod trrel_only011__ser;
 mod trrel_plain__ser;
+mod trrel_plain__perm1;
+mod trrel_plain__perm2;
+mod trrel_plain__ren;
 
 fn lookup(name: &str) -> fn() -> Box<dyn Driven> {
    match name {
@@ -25,6 +28,9 @@ fn lookup(name: &str) -> fn() -> Box<dyn Driven> {
       "trrel_only001__ser" => trrel_only001__ser::make,
       "trrel_only011__ser" => trrel_only011__ser::make,
       "trrel_plain__ser" => trrel_plain__ser::make,
+      "trrel_plain__perm1" => trrel_plain__perm1::make,
+      "trrel_plain__perm2" => trrel_plain__perm2::make,
+      "trrel_plain__ren" => trrel_plain__ren::make,
       _ => panic!("no such program variant in this shard: {}", name),
    }
 }
